@@ -41,6 +41,23 @@ pub fn take_overrun() -> Option<Overrun> {
     OVERRUN.with(|o| o.borrow_mut().take())
 }
 
+thread_local! {
+    /// first panic a driver caught inside its own sub-enumeration (so that one panicking sub-case does not
+    /// hide the rest of the enumeration); the engine reports it exactly like a panic of the case
+    pub static DRIVER_PANIC: std::cell::RefCell<Option<(vcore::PanicInfo, String)>> = const { std::cell::RefCell::new(None) };
+}
+pub fn report_driver_panic(p: vcore::PanicInfo, sub_case: String) {
+    DRIVER_PANIC.with(|o| {
+        let mut o = o.borrow_mut();
+        if o.is_none() {
+            *o = Some((p, sub_case));
+        }
+    });
+}
+pub fn take_driver_panic() -> Option<(vcore::PanicInfo, String)> {
+    DRIVER_PANIC.with(|o| o.borrow_mut().take())
+}
+
 pub static DRIVERS: &[Driver] = &[
     Driver { name: "file", run: file_driver },
     Driver { name: "cmap", run: cmap_driver },
@@ -69,6 +86,7 @@ pub static DRIVERS: &[Driver] = &[
     Driver { name: "gvar2", run: crate::drivers4::gvar2_driver },
     Driver { name: "aat", run: crate::drivers4::aat_driver },
     Driver { name: "raw", run: crate::drivers4::raw_driver },
+    Driver { name: "sparsebits", run: crate::sparsebits::sparsebits_driver },
 ];
 
 pub fn find(name: &str) -> Option<usize> {
